@@ -28,9 +28,20 @@ func checkGeneratedFile(name string, content []byte, b *Batch) []ev.Violation {
 		return out
 	}
 	want := map[string]bool{}
+	optional := map[string]bool{}
 	usesUnsafe := false
 	raw := false
+	tracked := false
 	for _, c := range b.Cases {
+		if of, ok := c.Meta["out_file"].(string); ok && of != name {
+			continue
+		}
+		if _, ok := c.Meta["need_pkgs"]; ok {
+			tracked = true
+		}
+		for _, p := range metaStrings(c.Meta["optional_pkgs"]) {
+			optional[p] = true
+		}
 		for _, p := range metaStrings(c.Meta["need_pkgs"]) {
 			if p == "unsafe" {
 				usesUnsafe = true
@@ -52,10 +63,10 @@ func checkGeneratedFile(name string, content []byte, b *Batch) []ev.Violation {
 			add("import:"+p, "forbidden-import", fmt.Sprintf("imports %q", p))
 		}
 	}
-	if _, tracked := b.Cases[0].Meta["need_pkgs"]; tracked {
+	if tracked {
 		var extra, missing []string
 		for p := range got {
-			if !want[p] {
+			if !want[p] && !optional[p] {
 				extra = append(extra, p)
 			}
 		}
@@ -109,9 +120,7 @@ func checkGeneratedFile(name string, content []byte, b *Batch) []ev.Violation {
 			}
 		}
 	}
-	if nInit > 1 {
-		add("init:multiple", "several-init", fmt.Sprintf("%d init functions", nInit))
-	}
+	_ = nInit // several goverter:variables blocks sharing one output file legitimately yield several init functions
 	return out
 }
 
